@@ -805,7 +805,125 @@ example : legalLabels [[97, 128], [66]] ∧ presName [[97, 128], [66]] = [97, 92
     foldName [65, 92, 49, 50, 56, 46, 98, 46] = foldName (presName [[97, 128], [66]]) := by
   refine ⟨⟨by simp, by decide⟩, by decide, by decide⟩
 
+/-! ## (j) the health-check domain template (fifth audit)
+
+Found on the unchanged code: the start-up accepted any non-empty `domain_template`.  If the name made
+from it cannot be packed (a label of more than 63 octets — four placeholders in one label are enough
+— or an empty label) `healthcheckUpstream` records a failed check for every main upstream in every
+round although nothing is sent: all healthy main upstreams leave the rotation for good and every
+query goes to the fallbacks (`unpackable_template_counterexample`).  As fixed, the start-up checks the
+name made with the longest random part; every name of every round is then legal
+(`accepted_template_always_packable`) and the template takes nothing away from the probes
+(`accepted_template_probes_unchanged`), so that the theorems of (c), (d) and (i) hold as stated. -/
+
+def segLen (n : Nat) : Seg → Nat
+  | .lit b => b.length
+  | .rnd => n
+
+theorem expandLabel_length (r : List Nat) (l : List Seg) :
+    (expandLabel r l).length = (l.map (segLen r.length)).sum := by
+  induction l with
+  | nil => rfl
+  | cons x t ih => cases x <;> simp [expandLabel, segLen, ih]
+
+theorem segSum_mono {n m : Nat} (h : n ≤ m) (l : List Seg) :
+    (l.map (segLen n)).sum ≤ (l.map (segLen m)).sum := by
+  induction l with
+  | nil => simp
+  | cons x t ih => cases x <;> simp [segLen] <;> omega
+
+theorem segSum_pos {n m : Nat} (hn : 1 ≤ n) (l : List Seg) (h : 1 ≤ (l.map (segLen m)).sum) :
+    1 ≤ (l.map (segLen n)).sum := by
+  induction l with
+  | nil => simp at h
+  | cons x t ih =>
+    cases x with
+    | rnd => simp [segLen]; omega
+    | lit b =>
+      simp [segLen] at h ⊢
+      by_cases hb : b.length = 0
+      · have := ih (by omega)
+        omega
+      · omega
+
+theorem encodeName_expand_mono {r r' : List Nat} (h : r.length ≤ r'.length) (t : Tmpl) :
+    (encodeName (expandTmpl r t)).length ≤ (encodeName (expandTmpl r' t)).length := by
+  induction t with
+  | nil => simp [expandTmpl]
+  | cons l t ih =>
+    have h1 := segSum_mono h l
+    simp only [expandTmpl, List.map_cons, encodeName, List.length_cons, List.length_append,
+      expandLabel_length] at ih ⊢
+    omega
+
+theorem legalLabelsB_iff (ls : List (List Nat)) : legalLabelsB ls = true ↔ legalLabels ls := by
+  simp [legalLabelsB, legalLabels, List.all_eq_true]
+
+/-- **accepted_template_always_packable.** A template accepted by the start-up check (as fixed) gives a
+legal name — every label 1–63 octets, at most 255 octets on the wire — in every round, whatever the
+random part (1 to 16 digits, any digits). -/
+theorem accepted_template_always_packable (t : Tmpl) (h : tmplAccepted t = true) (r : List Nat)
+    (h1 : 1 ≤ r.length) (h16 : r.length ≤ 16) : legalLabels (expandTmpl r t) := by
+  rw [tmplAccepted, legalLabelsB_iff] at h
+  obtain ⟨hl, hw⟩ := h
+  have hm : r.length ≤ maxRand.length := by simpa [maxRand] using h16
+  refine ⟨?_, Nat.le_trans (encodeName_expand_mono hm t) hw⟩
+  intro l hlm
+  simp only [expandTmpl, List.mem_map] at hlm
+  obtain ⟨sl, hsl, rfl⟩ := hlm
+  have := hl (expandLabel maxRand sl) (by simp only [expandTmpl, List.mem_map]; exact ⟨sl, hsl, rfl⟩)
+  rw [expandLabel_length] at this ⊢
+  exact ⟨segSum_pos h1 sl this.1, Nat.le_trans (segSum_mono hm sl) this.2⟩
+
+/-- **accepted_template_probes_unchanged.** With an accepted template the probes of a round are what
+the upstreams make of them: the template never fails a probe. -/
+theorem accepted_template_probes_unchanged (t : Tmpl) (h : tmplAccepted t = true) (r : List Nat)
+    (h1 : 1 ≤ r.length) (h16 : r.length ≤ 16) (pr : Nat → Probe) : probesWithTmpl t r pr = pr := by
+  funext u
+  have := (legalLabelsB_iff _).2 (accepted_template_always_packable t h r h1 h16)
+  simp [probesWithTmpl, this]
+
+/-- The template of the finding: four placeholders in the first label, `example`, `com`. -/
+def tmpl4 : Tmpl := [[.rnd, .rnd, .rnd, .rnd], [.lit [101, 120, 97, 109, 112, 108, 101]], [.lit [99, 111, 109]]]
+
+/-- **unpackable_template_counterexample.** The start-up check before the fix does not protect the
+rotation: `tmpl4` is accepted, and with a 16-digit random part (15 rounds of 16) a main upstream
+that answers every probe it gets is out of rotation after the round; the fixed check refuses the
+template. -/
+theorem unpackable_template_counterexample :
+    ¬ (∀ (t : Tmpl) (r : List Nat) (c : Cfg) (s : St) (pr : Nat → Probe) (u : Nat),
+        tmplAcceptedOld t = true → r.length ≤ 16 → 1 ≤ r.length → c.nFb > 0 → u < c.nMain →
+        (pr u).ok = true → (pr u).ctxDone = false → s.lastFailed u = none →
+        u ∈ (refresh c s (probesWithTmpl t r pr)).1.active) := by
+  intro h
+  have := h tmpl4 maxRand ⟨2, 1, 30⟩ (St.init ⟨2, 1, 30⟩) (fun _ => ⟨100, true, 100, false⟩) 1
+    (by decide) (by decide) (by decide) (by decide) (by decide) rfl rfl rfl
+  revert this
+  decide
+
+/-- Non-vacuity and the boundary: `tmpl4` is refused by the fixed check, empties the rotation under the
+old one, and sends every query to the fallback; a label of 47 literal octets and one placeholder (63)
+is accepted, 48 (64) is not; the dist file's template is accepted. -/
+example : tmplAcceptedOld tmpl4 = true ∧ tmplAccepted tmpl4 = false ∧
+    (refresh ⟨2, 1, 30⟩ (St.init ⟨2, 1, 30⟩)
+      (probesWithTmpl tmpl4 maxRand (fun _ => ⟨100, true, 100, false⟩))).1.active = [] ∧
+    (refresh ⟨2, 1, 30⟩ (St.init ⟨2, 1, 30⟩)
+      (probesWithTmpl tmpl4 [49, 50] (fun _ => ⟨100, true, 100, false⟩))).1.active = [0, 1] ∧
+    tmplAccepted [[.lit (List.replicate 47 97), .rnd], [.lit [99]]] = true ∧
+    tmplAccepted [[.lit (List.replicate 48 97), .rnd], [.lit [99]]] = false ∧
+    tmplAccepted [[.lit [97]], [], [.lit [99]]] = false ∧
+    tmplAccepted [[.rnd], [.lit [110, 101, 118, 101, 114, 115, 115, 108]], [.lit [99, 111, 109]]] = true := by
+  decide
+
 #print axioms main_reply_used
+#print axioms expandLabel_length
+#print axioms segSum_mono
+#print axioms segSum_pos
+#print axioms encodeName_expand_mono
+#print axioms legalLabelsB_iff
+#print axioms accepted_template_always_packable
+#print axioms accepted_template_probes_unchanged
+#print axioms unpackable_template_counterexample
 #print axioms fallback_once_then_servfail
 #print axioms finish_servfail_iff
 #print axioms backoff_respected
